@@ -48,7 +48,7 @@ def one_case(rng, big):
 def run(oc, tier, seed, model_available, escalate):
     rng = random.Random(seed * 472882027 + 2)
     lines, impl = [], []
-    n_cases = 320 if tier == "quick" else 5000
+    n_cases = 900 if tier == "quick" else 12000
     if escalate:
         n_cases *= 2
     wstat = {}
